@@ -13,6 +13,8 @@ from rustscan import lex, sig, scan_items, strip_ws, find_matching, line_of
 
 REPO = os.environ.get('VP_REPO', '/repo')
 VERIF = os.path.dirname(os.path.dirname(os.path.abspath(__file__)))
+# generated files of this process (VP_GEN lets several checks run side by side on different trees)
+GEN = os.environ.get('VP_GEN') or os.path.join(VERIF, 'gen')
 
 ENABLED_FEATURES = {'compress', 'flate2', 'charsets', 'multipart-form', 'json', 'form', 'encoding_rs', 'encoding_rs_io',
                     'mime', 'mime_guess', 'rand', 'serde', 'serde_json', 'serde_urlencoded'}
@@ -1331,7 +1333,7 @@ def r0_only(text):
 
 
 def generate(unit, outdir=None):
-    outdir = outdir or os.path.join(VERIF, 'gen')
+    outdir = outdir or GEN
     os.makedirs(outdir, exist_ok=True)
     tpl = os.path.join(VERIF, 'units', unit + '.rs')
     parts = parse_template(tpl)
